@@ -45,6 +45,9 @@ def _plans(tier):
         return [("close", lc.plan(1, [1], FUK, "none", [98]), 3, 1),
                 ("ids", lc.plan(2, [1], ["F", "M"], "dep", [98]), 2, 1),
                 ("uni", lc.plan(1, [1], UNI, "dep", [98, 99], empty=False), 4, 1),
+                # the same on a zero-fee-HTLC anchor channel (the monitor recognises the node's outputs of a
+                # counterparty commitment by other scripts there)
+                ("uni-anchors", lc.plan(1, [1], UNI, "dep", [99], empty=False, anchors=True), 4, 1),
                 ("stub", lc.plan(1, [], [], "none", [105]), 2, 1),
                 # very deep burial: one channel, single blocks F / U / S / H (never fully swept), one Bury per
                 # path with 99 / 100 / 2015 / 2016 blocks (the top event gets D, D + 1, DX, DX + 1 confirmations)
@@ -57,6 +60,7 @@ def _plans(tier):
             ("close-deep", lc.plan(1, [1], FUK, "dep", [98]), 3, 2),
             ("uni", lc.plan(1, [1], ["F", "U", "V", "S", "H", "L"], "dep", [98, 100]), 4, 1),
             ("uni-streamed", lc.plan(1, [1], UNI, "dep", [98, 99], mode="streamed", empty=False), 4, 1),
+            ("uni-anchors", lc.plan(1, [1], UNI, "dep", [98, 100], anchors=True), 4, 1),
             ("two", lc.plan(2, [1, 2], ["F", "M"], "none", [98, 99], empty=False), 4, 1),
             ("stub", lc.plan(2, [], [], "none", [105]), 2, 1),
             ("stub-deep", lc.plan(1, [], [], "none", [105]), 3, 2),
@@ -188,7 +192,7 @@ def run(pid, tier):
             raise vlib.ToolError("lifecycle harness: initial state is not the specification's initial state")
         leg = "B_impl_" + name
         cov["legs"][leg] = {
-            "plan": {k: pl[k] for k in ("maxd", "cd", "kinds", "pairs", "bury", "around", "mode", "empty", "crash")},
+            "plan": {k: pl.get(k) for k in ("maxd", "cd", "kinds", "pairs", "bury", "around", "mode", "empty", "crash", "anchors")},
             "bury_sizes": sorted({r["k"] for r in ex["cases"]["requests"] if r["op"] == "Bury"}),
             "maxshort": maxshort, "maxbury": maxbury, "requests_in_alphabet": len(ex["cases"]["requests"]),
             "impl_states": rep["nodes"], "impl_edges": rep["edges"], "refused_edges": ex["stats"]["refused"],
@@ -337,7 +341,7 @@ def replay(pid, obj):
     d = lc.wd("replay")
     c = lc.cases(d, rp["plan"])
     steps_file = os.path.join(d, "steps.ndjson")
-    lc.run_sequences(binpath, c, [rp["requests"]], steps_file, mode=rp["plan"].get("mode", "compact"))
+    lc.run_sequences(binpath, c, [rp["requests"]], steps_file, mode=lc.hmode(rp["plan"]))
     tr = lc.trace_tlc(steps_file, c, name="replay")
     for x in open(steps_file):
         e = json.loads(x)
